@@ -182,7 +182,13 @@ pub fn scenarios(tier: &str) -> Vec<Scenario> {
         run(&Opts { max_depth: 2, max_nodes: 3, max_children: 2, vary_output: true, vary_ids: false, reply_subs: false, inst_leaves: false })
     }));
     v.push(Scenario::new("instantiate_sudo_migrate_entry_points", &["instantiate", "sudo", "migrate"], entry_points));
+    v.push(Scenario::new("trees_nodes3_replies_emitting_submessages_instantiate_leaves", &["ok", "err", "ok_with_data"], || {
+        run(&Opts { max_depth: 1, max_nodes: 3, max_children: 2, vary_output: true, vary_ids: false, reply_subs: true, inst_leaves: true })
+    }));
     if tier == "thorough" {
+        v.push(Scenario::new("trees_depth2_nodes4_chain_replies_emitting_submessages_instantiate_leaves", &["ok", "err", "ok_with_data"], || {
+            run(&Opts { max_depth: 2, max_nodes: 4, max_children: 1, vary_output: true, vary_ids: false, reply_subs: true, inst_leaves: true })
+        }));
         v.push(Scenario::new("trees_depth2_nodes4_chain_output_varied", &["ok", "err"], || {
             run(&Opts { max_depth: 2, max_nodes: 4, max_children: 1, vary_output: true, vary_ids: false, reply_subs: false, inst_leaves: false })
         }));
